@@ -38,6 +38,7 @@ type Step struct {
 	After    Snapshot
 	T0, T1   int64 // logical clock before / after the call
 	Rep      int   // representative index of the state (0 or 1)
+	Aux      any   // second result of SearchOpts.DoFn
 }
 
 // Replay renders the step for a replay file.
@@ -76,6 +77,10 @@ type SearchOpts struct {
 	AlphaFn func(st MState) []Req
 	Workers int
 	OnStep  func(*Step)
+	// DoFn replaces Env.Do (e.g. to go through an HTTP endpoint); the second
+	// result is attached to the Step as Aux. SetupFn is called on each fresh Env.
+	DoFn    func(e *Env, r Req) (Outcome, any)
+	SetupFn func(e *Env)
 	// PreStep is called directly before each explored Update.
 	PreStep func()
 	// OnEnv is called for every fresh environment (e.g. to wrap / observe).
@@ -155,15 +160,25 @@ func Search(o SearchOpts) (int, int64) {
 	level := []string{"⊥"}
 	var transitions atomic.Int64
 
+	do := func(e *Env, r Req) Outcome {
+		if o.DoFn != nil {
+			out, _ := o.DoFn(e, r)
+			return out
+		}
+		return e.Do(r)
+	}
 	build := func(path []Req, want string) *Env {
 		e := NewEnv(o.U, cfg)
+		if o.SetupFn != nil {
+			o.SetupFn(e)
+		}
 		for i, r := range o.Prelude {
-			if out := e.Do(r); out.Class != OK {
+			if out := do(e, r); out.Class != OK {
 				ev.Internal("prelude step %d (%s) was refused: %v", i, r.Label, out.Err)
 			}
 		}
 		for i, r := range path {
-			out := e.Do(r)
+			out := do(e, r)
 			if out.Class != OK {
 				ev.Internal("replay of path step %d (%s) was refused: %v", i, r.Label, out.Err)
 			}
@@ -222,7 +237,13 @@ func Search(o SearchOpts) (int, int64) {
 							o.PreStep()
 						}
 						t0 := ClockNow()
-						out := e.Do(r)
+						var out Outcome
+						var aux any
+						if o.DoFn != nil {
+							out, aux = o.DoFn(e, r)
+						} else {
+							out = e.Do(r)
+						}
 						t1 := ClockNow()
 						after := e.Snap()
 						stAfter, known := StateOf(o.Gen, []byte(after.ByID[id]))
@@ -232,7 +253,7 @@ func Search(o SearchOpts) (int, int64) {
 						transitions.Add(1)
 						if o.OnStep != nil {
 							o.OnStep(&Step{Env: e, Log: o.Log, Cfg: lc, Path: path, Req: r, StBefore: st, StAfter: stAfter, Foreign: !known,
-								Exp: exp, Out: out, Before: before, After: after, T0: t0, T1: t1, Rep: j.rep})
+								Exp: exp, Out: out, Before: before, After: after, T0: t0, T1: t1, Rep: j.rep, Aux: aux})
 						}
 						ret := "nil"
 						if out.Bytes != nil {
